@@ -38,6 +38,14 @@ V("C09", "rename-local", "silent", "", "rename a local variable",
   (UL, "        return obs_limit, exp_limit, results\n    return obs_limit, exp_limit", "        return obs_limit, exp_limit, scan_results\n    return obs_limit, exp_limit"))
 V("C09", "level-keyword", "silent", "", "pass level by keyword on the grid arm",
   (UL, "data, model, scan, level, return_results, **hypotest_kwargs\n        )", "data, model, scan, level=level, return_results=return_results, **hypotest_kwargs\n        )"))
+V("C09", "unique-grid-and-callers-scan", "fire", "C09.R4", "grid de-duplicated inside the scan, the caller's grid handed back with the results",
+  ("src/pyhf/infer/intervals/upper_limits.py", '    tb, _ = get_backend()\n    results = [\n        hypotest(mu, data, model, return_expected_set=True, **hypotest_kwargs)\n        for mu in scan\n', '    tb, _ = get_backend()\n    scan = tb.astensor(np.unique(tb.tolist(scan)))\n    results = [\n        hypotest(mu, data, model, return_expected_set=True, **hypotest_kwargs)\n        for mu in scan\n'), ("src/pyhf/infer/intervals/upper_limits.py", '        return linear_grid_scan(\n            data, model, scan, level, return_results, **hypotest_kwargs\n        )\n', '        obs_limit, exp_limit, *grid_results = linear_grid_scan(\n            data, model, scan, level, return_results, **hypotest_kwargs\n        )\n        if return_results:\n            (_, results) = grid_results[0]\n            return obs_limit, exp_limit, (scan, results)\n        return obs_limit, exp_limit\n'))
+V("C09", "unique-grid-only", "silent", "", "grid de-duplicated inside the scan and reported as used",
+  ("src/pyhf/infer/intervals/upper_limits.py", '    tb, _ = get_backend()\n    results = [\n        hypotest(mu, data, model, return_expected_set=True, **hypotest_kwargs)\n        for mu in scan\n', '    tb, _ = get_backend()\n    scan = tb.astensor(np.unique(tb.tolist(scan)))\n    results = [\n        hypotest(mu, data, model, return_expected_set=True, **hypotest_kwargs)\n        for mu in scan\n'))
+V("C09", "callers-scan-only", "silent", "", "upper_limit hands back the caller's grid (the scan used it unchanged)",
+  ("src/pyhf/infer/intervals/upper_limits.py", '        return linear_grid_scan(\n            data, model, scan, level, return_results, **hypotest_kwargs\n        )\n', '        obs_limit, exp_limit, *grid_results = linear_grid_scan(\n            data, model, scan, level, return_results, **hypotest_kwargs\n        )\n        if return_results:\n            (_, results) = grid_results[0]\n            return obs_limit, exp_limit, (scan, results)\n        return obs_limit, exp_limit\n'))
+V("C09", "poi-rounded-in-evaluator", "fire", "C09.R6", "the cached evaluator rounds the POI to 8 decimals before testing it",
+  ("src/pyhf/infer/intervals/upper_limits.py", '    def f_cached(poi):\n        if poi not in cache:', '    def f_cached(poi):\n        poi = round(float(poi), 8)\n        if poi not in cache:'))
 
 # ------------------------------------------------------------------ C11
 V("C11", "no-subscribe-normfactor", "fire", "C11.R1", "subscription removed",
